@@ -1668,6 +1668,15 @@ def race(ds: Sequence[Deferred[_T]]) -> Deferred[tuple[int, _T]]:
     # cancellation could propagate down to them.
     winner: Optional[Deferred[_T]] = None
 
+    # Cancel one of the actions.  As in L{DeferredList.cancel}, a canceller
+    # that raises must not keep the other actions from being cancelled, nor
+    # the result from being delivered.
+    def cancelOne(d: Deferred[_T]) -> None:
+        try:
+            d.cancel()
+        except BaseException:
+            log.failure("Exception raised from user supplied canceller")
+
     # The cancellation function for the Deferred this function returns.
     def cancel(result: Deferred[_T]) -> None:
         # If it is cancelled then we cancel all of the Deferreds for the
@@ -1675,7 +1684,7 @@ def race(ds: Sequence[Deferred[_T]]) -> Deferred[tuple[int, _T]]:
         # delivering any of their results anywhere.  We don't have to fire
         # `result` because the Deferred will do that for us.
         for d in to_cancel:
-            d.cancel()
+            cancelOne(d)
 
     # The Deferred that this function will return.  It will fire with the
     # index and output of the action that completes first, or errback if all
@@ -1701,7 +1710,7 @@ def race(ds: Sequence[Deferred[_T]]) -> Deferred[tuple[int, _T]]:
             # Cancel the rest.
             for d in to_cancel:
                 if d is not winner:
-                    d.cancel()
+                    cancelOne(d)
 
             # Fire our Deferred
             final_result.callback((this_index, this_output))
